@@ -775,6 +775,24 @@ func Gen(r *hx.Rng, tier string, w io.Writer) {
 		}
 	}
 
+	// SAMPLES of the region the model of the YAML pair does not cover (`unmodelled`): recorded, not judged
+	if len(strOpts) > 0 {
+		fmt.Fprintln(w, "reset")
+		unmodelled := []string{"\tb", "a\t", "\t", "?\ta", "-\tx", "a:\tb", "\t?", "a\u0085b", "a\u0085", "\u2028", "x\u2029y", "\ufeffa", "a\r\nb", "a\n\rb", "\r\n",
+			"a \nb", "a\n b", "a\tb\nc", "12345678901234567e3", "1e400", "1e-400", "9e9999", "2001-1-1 1:2:3", "2001-2-30", "2001-1-1T1:2:3Z", "0X1234567890abcdef0", "0B" + strings.Repeat("1", 70)}
+		n := 10
+		if tier == "thorough" {
+			n = len(unmodelled) * 2
+		}
+		for _, i := range r.Perm(len(unmodelled)) {
+			if n == 0 {
+				break
+			}
+			n--
+			fmt.Fprintf(w, "saveprobe set=%s\n", showPairs([]pair{{strOpts[r.Intn(len(strOpts))].Go, unmodelled[i]}}))
+		}
+	}
+
 	// whole configurations: the defaults, every option at the zero value of its kind, every option
 	// at a non-default value, every group (Go struct) at zero while the rest keeps its default
 	fmt.Fprintln(w, "reset")
